@@ -1,8 +1,10 @@
 package tcplistener
 
 import (
+	"errors"
 	"net"
 	"sync"
+	"syscall"
 	"time"
 
 	"github.com/relex/gotils/channels"
@@ -108,6 +110,12 @@ func (listener *tcpLineListener) run() {
 	for {
 		newConn, acceptErr := listener.socket.AcceptTCP()
 		if acceptErr != nil {
+			if isTemporaryAcceptError(acceptErr) && !listener.stopRequest.Peek() {
+				// e.g. out of file descriptors while clients are reconnecting: keep the listener, try again shortly
+				listener.logger.Warn("failed to accept() connection, to retry: ", acceptErr)
+				time.Sleep(acceptRetryInterval)
+				continue
+			}
 			if !(listener.stopRequest.Peek() && util.IsNetworkClosed(acceptErr)) {
 				// not closed on stop request
 				listener.logger.Warn("failed to accept() connection while listener is alive: ", acceptErr)
@@ -138,6 +146,19 @@ func (listener *tcpLineListener) run() {
 
 	// mark the listener itself as done, note there could still be established connections
 	listener.taskCounter.Done()
+}
+
+// acceptRetryInterval is the pause before accept() is tried again after a temporary failure
+const acceptRetryInterval = 50 * time.Millisecond
+
+// isTemporaryAcceptError tells whether accept() failed for a reason that does not concern the listening socket itself
+func isTemporaryAcceptError(err error) bool {
+	for _, errno := range []syscall.Errno{syscall.EMFILE, syscall.ENFILE, syscall.ECONNABORTED, syscall.ENOBUFS, syscall.ENOMEM} {
+		if errors.Is(err, errno) {
+			return true
+		}
+	}
+	return false
 }
 
 func (listener *tcpLineListener) runConnection(connLogger logger.Logger, conn *net.TCPConn, clientNumber base.ClientNumber) {
@@ -183,7 +204,7 @@ func (listener *tcpLineListener) runConnection(connLogger logger.Logger, conn *n
 			recvChan.Flush()
 			continue
 		}
-		
+
 		// error handling
 		mlineReader.FlushAll()
 		if util.IsNetworkClosed(readErr) && listener.stopRequest.Peek() {
